@@ -53,6 +53,7 @@ Local Arguments put_bundler {P D}.
 Local Arguments any_bundling {P D}.
 Local Arguments add_status {P D}.
 Local Arguments request_pause {P D}.
+Local Arguments request_pause_in_task {P D}.
 Local Arguments finish_read {P D}.
 Local Arguments mark_cached {P D}.
 Local Arguments exec_cmd {P D}.
@@ -600,6 +601,13 @@ Proof.
   destruct (pc s); repeat break_match; intros H; inversion H; subst; clear H; facts; fchain.
 Qed.
 
+Lemma request_pause_in_task_frame (s : st) d s' e o : request_pause_in_task s d = (s', e, o) -> frame s s'.
+Proof.
+  unfold request_pause_in_task. destruct (request_pause s d) as [[s1 e1] o1] eqn:E.
+  apply request_pause_frame in E. intros H; inversion H; subst; clear H.
+  destruct (resumable s); [exact E|]. eapply frame_trans; [exact E | fsame].
+Qed.
+
 Lemma push_frame_frame (s : st) f : frame s (push_frame s f).
 Proof. fsame. Qed.
 
@@ -614,6 +622,7 @@ Ltac rfacts :=
   facts;
   repeat match goal with
          | H : request_pause _ _ = _ |- _ => apply request_pause_frame in H
+         | H : request_pause_in_task _ _ = _ |- _ => apply request_pause_in_task_frame in H
          | H : frame _ _ |- _ => apply frame_R in H
          end.
 Ltac rstep :=
@@ -1374,6 +1383,12 @@ Proof.
   unfold request_pause. repeat break_match; intros H; inversion H; subst; nil_helpers; nil_tac.
 Qed.
 
+Lemma request_pause_in_task_nil (s : st) d s' e o : request_pause_in_task s d = (s', e, o) -> nil_ o.
+Proof.
+  unfold request_pause_in_task. destruct (request_pause s d) as [[s1 e1] o1] eqn:E.
+  intros H; inversion H; subst. eapply request_pause_nil; exact E.
+Qed.
+
 Lemma helper_resume_nil h i o os : helper_resume presume h i = (o, os) -> nil_ os.
 Proof. unfold helper_resume. repeat break_match; intros H; inversion H; subst; nil_tac. Qed.
 
@@ -1394,6 +1409,7 @@ Ltac nil_helpers2 :=
   nil_helpers;
   repeat match goal with
          | H : request_pause _ _ = _ |- _ => apply request_pause_nil in H
+         | H : request_pause_in_task _ _ = _ |- _ => apply request_pause_in_task_nil in H
          | H : frame_resume _ _ _ = _ |- _ => apply frame_resume_nil in H
          end.
 
